@@ -32,7 +32,8 @@ def showOut : Out → String
 
 def showSrv (s : Srv) (outs : List Out) : String :=
   let j := fun (l : List String) => if l.isEmpty then "-" else ",".intercalate l
-  s!"sent={j (outs.map showOut)} sess={j ((sortedSess s).map showSess)} pool={s.avail.length}/{s.alloc.length}"
+  let held := (sortedSess s).filterMap fun x => (AMap.lookup s.alloc x.serial).map fun a => s!"{x.id}:{a}"
+  s!"sent={j (outs.map showOut)} sess={j ((sortedSess s).map showSess)} pool={s.avail.length}/{s.alloc.length} held={j held} orph={s.alloc.length - held.length} free={j (s.avail.map toString)}"
 
 def parseIn (toks : List String) : Option In :=
   match toks with
@@ -95,8 +96,35 @@ def parseObs (impl : String) : Obs :=
     | _ => (0, 0)
   { seen := parseSeen (field impl "sess"), sent := parseSent (field impl "sent"), free := free, alloc := alloc }
 
+/-- the pool's own view (`held=`, `free=`): judged by three further clauses that are NOT part of `monitorCore`
+    (and so not covered by `monitor_silent_on_model`); the model-level statements they correspond to are
+    Spec.C16PppoeWhole.address_is_pool_entry / sessions_hold_distinct_addresses / held_address_not_free -/
+def poolView (impl : String) : List (String × String × String) :=
+  let pairs := fun (s : String) => if s == "-" || s.isEmpty then [] else
+    (s.splitOn ",").filterMap fun item => match item.splitOn ":" with
+      | [a, b] => some (a, b)
+      | _ => none
+  let held := pairs (field impl "held")
+  let free := let f := field impl "free"; if f == "-" || f.isEmpty then [] else f.splitOn ","
+  let sess := (let s := field impl "sess"; if s == "-" || s.isEmpty then [] else s.splitOn ",").filterMap fun item =>
+    match item.splitOn ":" with
+    | [sid, _, _, _, ip] => some (sid, ip)
+    | _ => none
+  let v1 := sess.filterMap fun (sid, ip) =>
+    let rec_ := ((held.find? (·.1 == sid)).map (·.2)).getD "-"
+    if rec_ != ip then some ("pool-entry", "none", s!"session {sid} shows address {ip} but the pool records {rec_} for it") else none
+  let addrs := held.map (·.2)
+  let rec dups : List String → List String
+    | [] => []
+    | a :: rest => (if rest.contains a then [a] else []) ++ dups rest
+  let v2 := (dups addrs).map fun a => ("unique", "none", s!"address {a} is recorded for two live sessions")
+  let v3 := addrs.filterMap fun a =>
+    if free.contains a then some ("held-free", "none", s!"address {a} is held by a session and on the free list") else none
+  v1 ++ v2 ++ v3
+
 def monitor (mn : Mon) (i : In) (impl : String) : Mon × List (String × String × String) :=
-  monitorCore mn i (parseObs impl)
+  let (mn', vs) := monitorCore mn i (parseObs impl)
+  (mn', vs ++ poolView impl)
 
 structure St where
   model : Option Srv := none
